@@ -130,6 +130,7 @@ type Sink struct {
 	n        int
 	failSync bool
 	slowSync time.Duration
+	Stalled  bool // a slow write or sync happened since the flag was last cleared
 	Stream   []byte            // every byte the sink accepted, torn fragments included (an append-only file)
 	OnWrite  func(data []byte) // called before recording (order oracle)
 	OnSync   func()
@@ -154,6 +155,9 @@ func (k *Sink) Write(p []byte) (int, error) {
 	}
 	if fail && kind == 4 {
 		e.S.Fault("audit-slow-write")
+		k.mu.Lock()
+		k.Stalled = true
+		k.mu.Unlock()
 		time.Sleep(k.StallD)
 	}
 	if fail && kind == 0 {
@@ -209,6 +213,9 @@ func (k *Sink) Sync() error {
 	if slow > 0 {
 		// the volume is slow, not broken: the flush takes its time and succeeds
 		e.S.Fault("audit-slow-sync")
+		k.mu.Lock()
+		k.Stalled = true
+		k.mu.Unlock()
 		time.Sleep(slow)
 	}
 	k.mu.Lock()
